@@ -512,4 +512,346 @@ theorem versionOk_cases (ver : Str) (hv : versionOk ver = true) :
     | error e => simp [hc] at h3
     | ok r => exact ⟨r, rfl, by simpa [hc] using h3⟩
 
+/-! ## more dict lemmas (for the fixpoint) -/
+
+theorem mem_dictInsert {β} (d : List (Str × β)) (k : Str) (v : β) (x : Str × β) (h : x ∈ dictInsert d k v) :
+    x ∈ d ∨ x = (k, v) := by
+  induction d with
+  | nil => simp [dictInsert] at h; exact Or.inr h
+  | cons kv r ih =>
+    obtain ⟨k', v'⟩ := kv
+    simp only [dictInsert] at h
+    split at h
+    · rename_i e
+      simp only [List.mem_cons] at h
+      rcases h with h | h
+      · right; rw [h, e]
+      · left; simp [h]
+    · simp only [List.mem_cons] at h
+      rcases h with h | h
+      · left; simp [h]
+      · rcases ih h with h | h
+        · left; simp [h]
+        · right; exact h
+
+theorem mem_dictUpdate {β} (d l : List (Str × β)) (x : Str × β) (h : x ∈ dictUpdate d l) : x ∈ d ∨ x ∈ l := by
+  induction l generalizing d with
+  | nil => left; simpa [dictUpdate] using h
+  | cons kv r ih =>
+    simp only [dictUpdate, List.foldl_cons] at h
+    rcases ih _ h with h | h
+    · rcases mem_dictInsert _ _ _ _ h with h | h
+      · left; exact h
+      · right; simp [h]
+    · right; simp [h]
+
+theorem keys_dictInsert_of_mem {β} (d : List (Str × β)) (k : Str) (v : β) (h : k ∈ keys d) :
+    keys (dictInsert d k v) = keys d := by
+  induction d with
+  | nil => simp [keys] at h
+  | cons kv r ih =>
+    obtain ⟨k', v'⟩ := kv
+    simp only [dictInsert]
+    split
+    · rfl
+    · rename_i hne
+      simp only [keys, List.map_cons, List.mem_cons] at h ⊢
+      rcases h with h | h
+      · exact absurd h.symm hne
+      · have := ih (by simpa [keys] using h)
+        simp only [keys] at this
+        rw [this]
+
+theorem nodup_keys_dictInsert {β} (d : List (Str × β)) (k : Str) (v : β) (h : (keys d).Nodup) :
+    (keys (dictInsert d k v)).Nodup := by
+  by_cases hm : k ∈ keys d
+  · rw [keys_dictInsert_of_mem d k v hm]; exact h
+  · rw [keys_dictInsert_of_not_mem d k v hm]
+    rw [List.nodup_append]
+    refine ⟨h, by simp, ?_⟩
+    intro a ha b hb
+    simp only [List.mem_singleton] at hb
+    subst hb
+    intro e; subst e; exact hm ha
+
+theorem nodup_keys_dictUpdate {β} (d l : List (Str × β)) (h : (keys d).Nodup) : (keys (dictUpdate d l)).Nodup := by
+  induction l generalizing d with
+  | nil => simpa [dictUpdate] using h
+  | cons kv r ih =>
+    simp only [dictUpdate, List.foldl_cons]
+    exact ih _ (nodup_keys_dictInsert d kv.1 kv.2 h)
+
+theorem nodup_keys_dictOfList {β} (l : List (Str × β)) : (keys (dictOfList l)).Nodup :=
+  nodup_keys_dictUpdate [] l (by simp [keys])
+
+theorem dictGet_dictInsert {β} (d : List (Str × β)) (k k' : Str) (v : β) :
+    dictGet (dictInsert d k v) k' = if k = k' then some v else dictGet d k' := by
+  induction d with
+  | nil => simp [dictInsert, dictGet]
+  | cons kv r ih =>
+    obtain ⟨k0, v0⟩ := kv
+    simp only [dictInsert]
+    split
+    · rename_i e
+      subst e
+      simp only [dictGet]
+      split <;> rfl
+    · rename_i hne
+      simp only [dictGet, ih]
+      split
+      · rename_i e
+        subst e
+        rw [if_neg (fun e => hne e.symm)]
+      · rfl
+
+theorem dictGet_eq_none_iff {β} (d : List (Str × β)) (k : Str) : dictGet d k = none ↔ k ∉ keys d := by
+  induction d with
+  | nil => simp [dictGet, keys]
+  | cons kv r ih =>
+    obtain ⟨k0, v0⟩ := kv
+    simp only [dictGet, keys, List.map_cons, List.mem_cons, not_or]
+    split
+    · rename_i e; subst e; simp
+    · rename_i hne
+      rw [ih]
+      simp only [keys]
+      constructor
+      · intro h; exact ⟨fun e => hne e.symm, h⟩
+      · intro h; exact h.2
+
+theorem dictInsert_same {β} (d : List (Str × β)) (k : Str) (v : β) (h : dictGet d k = some v) :
+    dictInsert d k v = d := by
+  induction d with
+  | nil => simp [dictGet] at h
+  | cons kv r ih =>
+    obtain ⟨k0, v0⟩ := kv
+    simp only [dictGet] at h
+    simp only [dictInsert]
+    split
+    · rename_i e
+      rw [if_pos e] at h
+      simp only [Option.some.injEq] at h
+      rw [h]
+    · rename_i hne
+      rw [if_neg hne] at h
+      rw [ih h]
+
+theorem dictGet_filter_ne {β} (d : List (Str × β)) (k k0 : Str) (h : k ≠ k0) :
+    dictGet (d.filter fun kv => kv.1 ≠ k0) k = dictGet d k := by
+  induction d with
+  | nil => rfl
+  | cons kv r ih =>
+    obtain ⟨k1, v1⟩ := kv
+    simp only [List.filter_cons]
+    by_cases e : k1 = k0
+    · subst e
+      simp only [ne_eq, not_true_eq_false, decide_false, Bool.false_eq_true, if_false, dictGet]
+      rw [if_neg (fun e => h e.symm)]
+      exact ih
+    · simp only [ne_eq, e, not_false_eq_true, decide_true, if_true, dictGet, ih]
+
+theorem dictGet_append {β} (a b : List (Str × β)) (k : Str) :
+    dictGet (a ++ b) k = (dictGet a k).or (dictGet b k) := by
+  induction a with
+  | nil => simp [dictGet]
+  | cons kv r ih =>
+    obtain ⟨k1, v1⟩ := kv
+    simp only [List.cons_append, dictGet]
+    split
+    · rfl
+    · exact ih
+
+/-! ## the info of a loaded laser is a fixpoint of save → load -/
+
+theorem dictGet_mem {β} (d : List (Str × β)) (k : Str) (v : β) (h : dictGet d k = some v) : (k, v) ∈ d := by
+  induction d with
+  | nil => simp [dictGet] at h
+  | cons kv r ih =>
+    obtain ⟨k0, v0⟩ := kv
+    simp only [dictGet] at h
+    split at h
+    · rename_i e
+      simp only [Option.some.injEq] at h
+      simp [e, h]
+    · simp [ih h]
+
+theorem mem_infoSpec (i : Info) (kv : Str × Str) (h : kv ∈ infoSpec i) :
+    ∃ kv0 ∈ i, kv0.1 ≠ kFilePath ∧ kv = (tabToSpace kv0.1, tabToSpace kv0.2) := by
+  unfold infoSpec dictOfList at h
+  rcases mem_dictUpdate _ _ _ h with h | h
+  · simp at h
+  · simp only [List.mem_map, List.mem_filter] at h
+    obtain ⟨kv0, ⟨hm, hne⟩, rfl⟩ := h
+    exact ⟨kv0, hm, by simpa using hne, rfl⟩
+
+theorem mem_finishInfo (p : PathInfo) (ver : Str) (i : Info) (kv : Str × Str) (h : kv ∈ finishInfo p ver i) :
+    kv ∈ i ∨ (kv.1 = kName ∧ (kv.2 = p.stem ∨ ∃ k', (k', kv.2) ∈ i)) ∨ kv = (kFilePath, p.resolved) ∨
+      kv = (kFileVersion, ver) := by
+  unfold finishInfo at h
+  rcases mem_dictInsert _ _ _ _ h with h | h
+  · rcases mem_dictInsert _ _ _ _ h with h | h
+    · rcases mem_dictInsert _ _ _ _ h with h | h
+      · exact Or.inl h
+      · right; left
+        rw [h]
+        refine ⟨rfl, ?_⟩
+        cases hg : dictGet i kName with
+        | none => left; simp
+        | some n => right; exact ⟨kName, by simpa using dictGet_mem i kName n hg⟩
+    · exact Or.inr (Or.inr (Or.inl h))
+  · exact Or.inr (Or.inr (Or.inr h))
+
+/-- what is known of the info of a laser that came out of `load` -/
+structure Good (p : PathInfo) (ver : Str) (X : Info) : Prop where
+  nodup : (keys X).Nodup
+  tabfree : ∀ kv ∈ X, kv.1 ≠ kFilePath → '\t' ∉ kv.1 ∧ '\t' ∉ kv.2
+  name : kName ∈ keys X
+  fver : dictGet X kFileVersion = some ver
+  fpath : dictGet X kFilePath = some p.resolved
+  nonul : infoNoNul X = true
+
+/-- the info after one more save → load -/
+def nextInfo (p : PathInfo) (X : Info) : Info :=
+  (X.filter fun kv => kv.1 ≠ kFilePath) ++ [(kFilePath, p.resolved)]
+
+theorem kName_ne_FP : kName ≠ kFilePath := by decide
+theorem kFV_ne_FP : kFileVersion ≠ kFilePath := by decide
+theorem kFV_ne_Name : kFileVersion ≠ kName := by decide
+
+theorem good_finish (p : PathInfo) (ver : Str) (i : Info) (hi : infoNoNul i = true)
+    (hst : '\t' ∉ p.stem) (hsn : noNulEnd p.stem = true) (hvt : '\t' ∉ ver) (hvn : noNulEnd ver = true) :
+    Good p ver (finishInfo p ver (infoSpec i)) := by
+  have hspec_tab : ∀ kv ∈ infoSpec i, '\t' ∉ kv.1 ∧ '\t' ∉ kv.2 := by
+    intro kv hkv
+    obtain ⟨kv0, _, _, rfl⟩ := mem_infoSpec i kv hkv
+    exact ⟨tab_not_mem_tabToSpace _, tab_not_mem_tabToSpace _⟩
+  have hspec_nul : ∀ kv ∈ infoSpec i, noNulEnd kv.2 = true := by
+    intro kv hkv
+    obtain ⟨kv0, hm, hne, rfl⟩ := mem_infoSpec i kv hkv
+    simp only [noNulEnd_tabToSpace]
+    have := (List.all_eq_true.mp hi) kv0 hm
+    simp only [Bool.or_eq_true, beq_iff_eq] at this
+    rcases this with e | e
+    · exact absurd e hne
+    · exact e
+  refine ⟨?_, ?_, ?_, ?_, ?_, ?_⟩
+  · exact nodup_keys_dictInsert _ _ _ (nodup_keys_dictInsert _ _ _ (nodup_keys_dictInsert _ _ _ (nodup_keys_dictOfList _)))
+  · intro kv hkv hne
+    rcases mem_finishInfo p ver _ kv hkv with h | ⟨hk, h⟩ | h | h
+    · exact hspec_tab kv h
+    · refine ⟨by rw [hk]; decide, ?_⟩
+      rcases h with h | ⟨k', h⟩
+      · rw [h]; exact hst
+      · exact (hspec_tab _ h).2
+    · rw [h] at hne; exact absurd rfl hne
+    · rw [h]; exact ⟨by show '\t' ∉ kFileVersion; decide, hvt⟩
+  · apply Decidable.not_not.mp
+    rw [← dictGet_eq_none_iff]
+    simp only [finishInfo, dictGet_dictInsert, if_neg kFV_ne_Name, if_neg kName_ne_FP.symm, if_true]
+    simp
+  · simp [finishInfo, dictGet_dictInsert]
+  · simp only [finishInfo, dictGet_dictInsert, if_neg kFV_ne_FP, if_true]
+  · apply List.all_eq_true.mpr
+    intro kv hkv
+    simp only [Bool.or_eq_true, beq_iff_eq]
+    rcases mem_finishInfo p ver _ kv hkv with h | ⟨_, h⟩ | h | h
+    · exact Or.inr (hspec_nul kv h)
+    · right
+      rcases h with h | ⟨k', h⟩
+      · rw [h]; exact hsn
+      · exact hspec_nul (k', kv.2) h
+    · left; rw [h]
+    · right; rw [h]; exact hvn
+
+theorem infoSpec_good (p : PathInfo) (ver : Str) (X : Info) (g : Good p ver X) :
+    infoSpec X = X.filter fun kv => kv.1 ≠ kFilePath := by
+  unfold infoSpec
+  have hmap : ((X.filter fun kv => kv.1 ≠ kFilePath).map fun kv => (tabToSpace kv.1, tabToSpace kv.2))
+      = X.filter fun kv => kv.1 ≠ kFilePath := by
+    conv => rhs; rw [← List.map_id (X.filter _)]
+    apply List.map_congr_left
+    intro kv hkv
+    simp only [List.mem_filter, decide_eq_true_eq] at hkv
+    obtain ⟨h1, h2⟩ := g.tabfree kv hkv.1 hkv.2
+    simp [tabToSpace_of_tabFree _ h1, tabToSpace_of_tabFree _ h2]
+  rw [hmap]
+  apply dictOfList_of_nodup
+  exact List.Nodup.sublist (List.Sublist.map _ List.filter_sublist) g.nodup
+
+theorem not_FP_mem_keys_filter (X : Info) : kFilePath ∉ keys (X.filter fun kv => kv.1 ≠ kFilePath) := by
+  simp only [keys, List.mem_map, List.mem_filter, not_exists, not_and]
+  intro kv ⟨_, h⟩ e
+  simp [e] at h
+
+theorem finish_filter (p : PathInfo) (ver : Str) (X : Info) (g : Good p ver X) :
+    finishInfo p ver (X.filter fun kv => kv.1 ≠ kFilePath) = nextInfo p X := by
+  unfold finishInfo nextInfo
+  have hname : ∃ n, dictGet (X.filter fun kv => kv.1 ≠ kFilePath) kName = some n := by
+    rw [dictGet_filter_ne X kName kFilePath kName_ne_FP]
+    cases h : dictGet X kName with
+    | none => exact absurd g.name ((dictGet_eq_none_iff X kName).mp h)
+    | some n => exact ⟨n, rfl⟩
+  obtain ⟨n, hn⟩ := hname
+  rw [hn, Option.getD_some, dictInsert_same _ _ _ hn,
+    dictInsert_of_not_mem _ _ _ (not_FP_mem_keys_filter X)]
+  apply dictInsert_same
+  rw [dictGet_append, dictGet_filter_ne X kFileVersion kFilePath kFV_ne_FP, g.fver]
+  rfl
+
+/-- one more save → load of a loaded laser's info: `File Path` moves to the end, nothing else -/
+theorem finish_spec_good (p : PathInfo) (ver : Str) (X : Info) (g : Good p ver X) :
+    finishInfo p ver (infoSpec X) = nextInfo p X := by
+  rw [infoSpec_good p ver X g, finish_filter p ver X g]
+
+theorem nextInfo_idem (p : PathInfo) (X : Info) : nextInfo p (nextInfo p X) = nextInfo p X := by
+  unfold nextInfo
+  rw [List.filter_append, List.filter_filter]
+  simp
+
+theorem dictGet_nextInfo (p : PathInfo) (ver : Str) (X : Info) (g : Good p ver X) (k : Str) :
+    dictGet (nextInfo p X) k = dictGet X k := by
+  unfold nextInfo
+  rw [dictGet_append]
+  by_cases e : k = kFilePath
+  · subst e
+    rw [(dictGet_eq_none_iff _ _).mpr (not_FP_mem_keys_filter X), g.fpath]
+    simp [dictGet]
+  · rw [dictGet_filter_ne X k kFilePath e]
+    cases dictGet X k with
+    | some v => rfl
+    | none =>
+      simp only [Option.or, dictGet]
+      rw [if_neg (fun h => e h.symm)]
+
+theorem good_next (p : PathInfo) (ver : Str) (X : Info) (g : Good p ver X) : Good p ver (nextInfo p X) := by
+  have hsub : ∀ kv ∈ (X.filter fun kv => kv.1 ≠ kFilePath), kv ∈ X := fun kv h => (List.mem_filter.mp h).1
+  refine ⟨?_, ?_, ?_, ?_, ?_, ?_⟩
+  · unfold nextInfo
+    simp only [keys, List.map_append, List.map_cons, List.map_nil]
+    rw [List.nodup_append]
+    refine ⟨List.Nodup.sublist (List.Sublist.map _ List.filter_sublist) g.nodup, by simp, ?_⟩
+    intro a ha b hb
+    simp only [List.mem_singleton] at hb
+    subst hb
+    intro e; subst e
+    exact not_FP_mem_keys_filter X ha
+  · intro kv hkv hne
+    unfold nextInfo at hkv
+    rcases List.mem_append.mp hkv with h | h
+    · exact g.tabfree kv (hsub kv h) hne
+    · simp only [List.mem_singleton] at h
+      rw [h] at hne; exact absurd rfl hne
+  · apply Decidable.not_not.mp
+    rw [← dictGet_eq_none_iff, dictGet_nextInfo p ver X g, dictGet_eq_none_iff]
+    exact fun h => h g.name
+  · rw [dictGet_nextInfo p ver X g]; exact g.fver
+  · rw [dictGet_nextInfo p ver X g]; exact g.fpath
+  · apply List.all_eq_true.mpr
+    intro kv hkv
+    unfold nextInfo at hkv
+    rcases List.mem_append.mp hkv with h | h
+    · exact (List.all_eq_true.mp g.nonul) kv (hsub kv h)
+    · simp only [List.mem_singleton] at h
+      simp [h]
+
 end Pew.Npz
